@@ -1029,7 +1029,8 @@ func (fr *frame) loopVarEnvAt(h *ssa.BasicBlock, edgeFrom *ssa.BasicBlock, at *s
 			break
 		}
 		n := phi.Comment
-		if !want[n] {
+		if _, isParam := fr.params[n]; !want[n] && !(isParam && fr.depth == 0) {
+			// (a parameter that the loop reassigns denotes its current value in loop clauses; old(p) is its entry value)
 			continue
 		}
 		if edgeFrom == nil {
